@@ -246,6 +246,62 @@ class CoupledJumpTimesPath(Lemma):
         return (bool(r["violations"]), {"simulator_battery_violations": [v["obligation"] for v in r["violations"]][:3]})
 
 
+class _ScriptedChain:
+    """what MCSimulationFixedTimes.simulate_markov_chain returns: per product-date interval the sampled state increments and
+    the running values"""
+
+    def __init__(self, increments, values):
+        self.states_increments, self.values = increments, values
+
+
+class CoupledFixedDatesTwoPaths(Lemma):
+    """CouplingSimulationFixedTimes (real pre_computation and simulate_jumps_with_coupling; one product date; the fine chain
+    and the coupling of a slice abstract): TWO paths simulated one after the other on the same simulator -- the first with
+    two jumps, the second without any: the second path's fine and coarse jump values are 0 (built from its own variates
+    only, nothing of the first path), and the first path's values are those of its own last jump."""
+    prop = "C15"
+
+    def __init__(self):
+        self.name = "property:coupled-fixed-dates-paths-share-nothing"
+
+    def prove(self, vc, case):
+        nm = self.name
+        CS = "rpylib.process.coupling.couplingmarkovchain:"
+        it = vc.interp
+        T = vc.real("maturity")
+        vc.assume(T > 0)
+        f1, f2, c1, c2 = vc.real("fine_after_jump1"), vc.real("fine_after_jump2"), vc.real("coarse_after_jump1"), vc.real("coarse_after_jump2")
+        chains = [_ScriptedChain([np.array([1, -2])], [np.array([f1, f2], dtype=object)]), _ScriptedChain([np.array([], dtype=int)], [np.array([], dtype=float)])]
+        fine_sim = vc.obj("rpylib.process.markovchain.markovchain:MCSimulationFixedTimes")
+        it.hooks["rpylib.process.markovchain.markovchain:MCSimulationFixedTimes.simulate_markov_chain"] = lambda it_, f, b: chains.pop(0)
+        it.hooks[CS + "CouplingSimulation.coupling_states_for_a_slice"] = lambda it_, f, b: np.array([c1, c2], dtype=object)
+        it.hooks["rpylib.product.product:Product.times_grid"] = lambda it_, f, b: np.array([0.0, T], dtype=object)
+        fine = vc.obj("rpylib.process.markovchain.markovchain:MarkovChainProcess", _path_simulation=fine_sim)
+        cp = vc.obj(CS + "CouplingMarkovChain", fine_process=fine)
+        sim = vc.new(CS + "CouplingSimulationFixedTimes", cp)
+        vc.method(sim, "pre_computation", 2, vc.obj("rpylib.product.product:Product"))
+        a_f, a_c = vc.method(sim, "simulate_jumps_with_coupling")
+        a_f, a_c = [x for x in np.ravel(np.asarray(a_f, dtype=object)).tolist()], [x for x in np.ravel(np.asarray(a_c, dtype=object)).tolist()]     # read before the next path
+        b_f, b_c = vc.method(sim, "simulate_jumps_with_coupling")
+        b_f, b_c = np.ravel(np.asarray(b_f, dtype=object)).tolist(), np.ravel(np.asarray(b_c, dtype=object)).tolist()
+        vc.check(nm + "::first-path-carries-the-values-of-its-own-last-jump", len(a_f) == 1 and len(a_c) == 1 and And(compare(a_f[0], f2, "=="), compare(a_c[0], c2, "==")))
+        vc.check(nm + "::second-path-without-jump-has-no-jump-value", len(b_f) == 1 and len(b_c) == 1 and And(compare(b_f[0], 0, "=="), compare(b_c[0], 0, "==")))
+
+    def replay(self, model, clause, case):
+        from types import SimpleNamespace
+        from rpylib.process.coupling.couplingmarkovchain import CouplingSimulationFixedTimes
+        chains = [_ScriptedChain([np.array([1, -2])], [np.array([0.3, 0.1])]), _ScriptedChain([np.array([], dtype=int)], [np.array([])])]
+        fine_sim = SimpleNamespace(simulate_markov_chain=lambda: chains.pop(0))
+        cp = SimpleNamespace(fine_process=SimpleNamespace(_path_simulation=fine_sim))
+        sim = CouplingSimulationFixedTimes(cp)
+        sim.coupling_states_for_a_slice = lambda sl: np.array([0.25, 0.125])
+        sim.pre_computation(2, SimpleNamespace(times_grid=lambda: np.array([0.0, 1.0])))
+        a = [np.array(x, dtype=float).copy() for x in sim.simulate_jumps_with_coupling()]
+        b = [np.array(x, dtype=float).copy() for x in sim.simulate_jumps_with_coupling()]
+        bad = not (np.allclose(a[0], [0.1]) and np.allclose(a[1], [0.125]) and np.allclose(b[0], [0.0]) and np.allclose(b[1], [0.0]))
+        return (bool(bad), {"first_path (fine, coarse)": [a[0].tolist(), a[1].tolist()], "second_path_without_jump (fine, coarse)": [b[0].tolist(), b[1].tolist()]})
+
+
 class JumpTimesDirect(Lemma):
     """levyprocess.SimulationWithJumpTimes.simulate_one_path (product dates t_1 < .. < t_n = maturity, jump counts per
     interval enumerated, jump times symbolic and sorted inside their interval): times = 0, the jump times, maturity,
@@ -509,7 +565,7 @@ class ChainRunningSum(Lemma):
         return (got != want, {"mode": mode, "jumps_per_interval": list(counts), "sampled_state_values": flat, "jump_component": got, "running_sum": want})
 
 
-UNITS = [FixedDatesDirect(), FixedDatesPreComputation(), JumpTimesDirect(), CoupledJumpTimesPath(), BuildFinerGrid(), MaxStepPath(), ChainRunningSum()]
+UNITS = [FixedDatesDirect(), FixedDatesPreComputation(), JumpTimesDirect(), CoupledJumpTimesPath(), CoupledFixedDatesTwoPaths(), BuildFinerGrid(), MaxStepPath(), ChainRunningSum()]
 def LATE_UNITS():
     # "fine and coarse components stay aligned": which diffusion coefficient each component of the coupled pair uses after a
     # level change is the contract of CouplingMarkovChain.next_level (kept with the coupling, c03)
